@@ -54,7 +54,7 @@ QS = f"{ESC}5[Cc]"
 # Any Unicode codepoint except for \ or '. Used for UTF-8 chars inside single
 # quotes hence the need for the escape characters and a way to escape a
 # a backslash.
-QUTF8 = r"[^'\\]+"
+QUTF8 = r"[^'\\]"
 DSTRING = f"({QS}|{QQ}|{QUTF8})+"
 QDSTRING = f"{SQUOTE}{DSTRING}{SQUOTE}"
 QDSTRINGLIST = f"({QDSTRING}({SP}{QDSTRING})*)?"
